@@ -611,7 +611,7 @@ func explore(eng0 *Engine, cfg Config, in instance, selfMax int, smtlog string) 
 
 				mu.Lock()
 				if os.Getenv("SYMGO_PATHS") != "" {
-					fmt.Fprintf(os.Stderr, "path %s -> %s %s covers=%v asserts=%v\n", traceString(pr.Trace), pr.End, firstLine(pr.Msg, 300), pr.Covers, pr.Asserts)
+					fmt.Fprintf(os.Stderr, "path %s -> %s %s steps=%d covers=%v asserts=%v\n", traceString(pr.Trace), pr.End, firstLine(pr.Msg, 300), pr.Steps, pr.Covers, pr.Asserts)
 				}
 				active--
 				res.paths++
